@@ -68,6 +68,7 @@ class SimNet:
         self.recv_pos = 0          # global receive position counter (shared with doubles)
         self.hook_recv = None      # callable(sock, data or None) -- observation seam
         self.hook_send = None      # callable(sock, data, addr)
+        self.hook_close = None     # callable(sock, [datagrams that had arrived and die with the socket])
 
     def set_fates(self, fates):
         self.fates = list(fates or [])
@@ -239,6 +240,9 @@ class SimSocket:
         self.closed = True
         if self.addr is not None and self.net.bound.get(self.addr) is self:
             del self.net.bound[self.addr]
+        hook = getattr(self.net, "hook_close", None)
+        if hook is not None:
+            hook(self, [x[2] for x in sorted(self.inbox) if x[0] <= self.net.clock.now])
         self.inbox = []
         self.net.log.add("sock.close", self.label)
 
